@@ -182,3 +182,212 @@ func serverRouteKey(info *types.Info, call *ast.CallExpr) (string, ast.Expr) {
 	}
 	return "", nil
 }
+
+// RunRouterMiddleware (C19 "every advertised endpoint is served at the advertised path"): middleware installed on the OP's
+// routers by the library itself runs before routing and may rewrite the request path (chi's CleanPath, StripSlashes,
+// RedirectSlashes, URLFormat, http.StripPrefix ...), so that a route registered under Endpoint.Relative() is no longer
+// reachable under the advertised URL.  Every argument of a `Use` call on a chi router in pkg/op must therefore be
+//   - the CORS handler (rs/cors: never touches the URL),
+//   - middleware supplied by the application (a parameter of the enclosing option/constructor), or
+//   - in-module middleware whose code (followed through in-module callees) never assigns URL / Path / RawPath / RequestURI.
+// Anything else is out-of-module code this rule cannot look into: reported for review.
+func RunRouterMiddleware(c *Ctx, rule string, pkgs []string) {
+	n := 0
+	for _, fi := range c.P.Funcs {
+		if fi.Body == nil || fi.Lit != nil || fi.Ctl || !contains(pkgs, shortPkg(fi.Pkg.PkgPath)) {
+			continue
+		}
+		info := fi.Pkg.TypesInfo
+		ast.Inspect(fi.Body, func(nd ast.Node) bool {
+			call, ok := nd.(*ast.CallExpr)
+			if !ok {
+				return true
+			}
+			fn, _ := typeutil.Callee(info, call).(*types.Func)
+			if fn == nil || fn.Name() != "Use" || fn.Pkg() == nil || !strings.Contains(fn.Pkg().Path(), "go-chi/chi") {
+				return true
+			}
+			for _, a := range call.Args {
+				n++
+				why, bad := classifyMiddleware(c, info, a)
+				construct := "middleware " + mwExpr(a)
+				c.R.Obl(Obligation{Rule: rule, Func: fi.Name, Construct: construct, Pos: c.P.Position(a.Pos()), Discharged: bad == "", Nontrivial: true, How: []string{why}})
+				if bad != "" {
+					c.R.Find(Finding{Rule: rule, Func: fi.Name, Construct: construct, Pos: c.P.Position(a.Pos()),
+						Msg: fmt.Sprintf("%s installs `%s` on the provider's router: %s; middleware runs before routing, and a rewritten request path makes endpoints registered under Endpoint.Relative() unreachable at the URL the discovery document advertises", fi.Name, types.ExprString(a), bad)})
+				}
+			}
+			return true
+		})
+	}
+	if n == 0 {
+		c.R.Fail("vacuity", "-", rule, "no router.Use call found in "+strings.Join(pkgs, ",")+": re-point the rule")
+	}
+}
+
+func mwExpr(e ast.Expr) string {
+	s := types.ExprString(e)
+	if len(s) > 60 {
+		s = s[:60]
+	}
+	return s
+}
+
+func classifyMiddleware(c *Ctx, info *types.Info, a ast.Expr) (why, bad string) {
+	a = unparen(a)
+	// application-supplied: a parameter (possibly variadic, possibly of the enclosing declaration)
+	if id, ok := a.(*ast.Ident); ok {
+		if v, ok := info.Uses[id].(*types.Var); ok && !v.IsField() {
+			if isParamVar(c, v) {
+				return "application-supplied middleware (parameter " + v.Name() + ")", ""
+			}
+			return "", "the value of local variable " + v.Name() + " is not traced by this rule"
+		}
+	}
+	// method value / call of an out-of-module or in-module function
+	var fns []*types.Func
+	ast.Inspect(a, func(n ast.Node) bool {
+		var id *ast.Ident
+		switch x := n.(type) {
+		case *ast.Ident:
+			id = x
+		case *ast.SelectorExpr:
+			id = x.Sel
+		default:
+			return true
+		}
+		if fn, ok := info.Uses[id].(*types.Func); ok {
+			fns = append(fns, fn)
+		}
+		return true
+	})
+	if len(fns) == 0 {
+		return "", "its origin is not a function this rule can resolve"
+	}
+	for _, fn := range fns {
+		if fn.Pkg() == nil {
+			continue
+		}
+		p := fn.Pkg().Path()
+		switch {
+		case strings.HasPrefix(p, "github.com/rs/cors"):
+			why = "rs/cors handler (does not touch the URL)"
+		case strings.HasSuffix(p, "go-chi/chi/v5/middleware") && chiHarmless[fn.Name()]:
+			why = "chi middleware reviewed as not touching the request path: " + fn.Name()
+		case inModule(p):
+			out := map[string]bool{}
+			funcsReached(c, info, a, 3, map[string]bool{}, out, map[*types.Func]bool{})
+			names := make([]string, 0, len(out))
+			for nme := range out {
+				names = append(names, nme)
+			}
+			sort.Strings(names)
+			for _, nme := range names {
+				if cf := c.P.FuncByNm[nme]; cf != nil && cf.Body != nil {
+					if w := urlWrite(cf); w != "" {
+						return "", "in-module middleware " + nme + " assigns " + w
+					}
+				}
+			}
+			why = "in-module middleware without URL writes: " + strings.Join(names, ", ")
+		default:
+			return "", "out-of-module middleware " + p + "." + fn.Name() + " is not on the reviewed list (the CORS handler and chi's logging/recovery/limit middlewares are)"
+		}
+	}
+	return why, ""
+}
+
+// chi middlewares read in the module cache (v5) and found neither to rewrite r.URL nor to answer for a path themselves.
+var chiHarmless = map[string]bool{"Logger": true, "RequestLogger": true, "Recoverer": true, "RequestID": true, "RealIP": true, "NoCache": true,
+	"Compress": true, "Timeout": true, "Throttle": true, "ThrottleBacklog": true, "SetHeader": true, "RequestSize": true, "WithValue": true}
+
+func isParamVar(c *Ctx, v *types.Var) bool {
+	for _, fi := range c.P.Funcs {
+		if fi.Sig == nil {
+			continue
+		}
+		for i := 0; i < fi.Sig.Params().Len(); i++ {
+			if fi.Sig.Params().At(i) == v {
+				return true
+			}
+		}
+	}
+	return false
+}
+
+// urlWrite: first assignment in fi (literals included) whose target is a request URL component.
+func urlWrite(fi *FuncInfo) string {
+	found := ""
+	ast.Inspect(fi.Body, func(n ast.Node) bool {
+		as, ok := n.(*ast.AssignStmt)
+		if !ok || found != "" {
+			return found == ""
+		}
+		for _, l := range as.Lhs {
+			if sel, ok := unparen(l).(*ast.SelectorExpr); ok {
+				switch sel.Sel.Name {
+				case "Path", "RawPath", "RequestURI", "URL":
+					found = types.ExprString(l)
+				}
+			}
+		}
+		return true
+	})
+	return found
+}
+
+// RunExternalMethodAllow: every use (call or method value) of a method of the out-of-module type pkgSuffix.typ inside the
+// in-scope packages must be one of the reviewed methods; allowed[name] lists the functions that may use it (nil = anywhere).
+// Used for configuration objects whose further knobs change the meaning of decoded / encoded request values.
+func RunExternalMethodAllow(c *Ctx, rule, pkgSuffix, typ string, allowed map[string][]string, why string) {
+	n := 0
+	for _, fi := range c.P.Funcs {
+		if fi.Body == nil || fi.Lit != nil || fi.Ctl {
+			continue
+		}
+		info := fi.Pkg.TypesInfo
+		ast.Inspect(fi.Body, func(nd ast.Node) bool {
+			sel, ok := nd.(*ast.SelectorExpr)
+			if !ok {
+				return true
+			}
+			fn, ok := info.Uses[sel.Sel].(*types.Func)
+			if !ok || fn.Pkg() == nil || !strings.HasSuffix(fn.Pkg().Path(), pkgSuffix) {
+				return true
+			}
+			sig, _ := fn.Type().(*types.Signature)
+			if sig == nil || sig.Recv() == nil {
+				return true
+			}
+			nt := namedOf(sig.Recv().Type())
+			if nt == nil || nt.Obj().Name() != typ {
+				return true
+			}
+			n++
+			who, listed := allowed[fn.Name()]
+			good := listed && (who == nil || allIn(c.attributed(fi), who))
+			construct := typ + "." + fn.Name()
+			c.R.Obl(Obligation{Rule: rule, Func: fi.Name, Construct: construct, Pos: c.P.Position(sel.Pos()), Discharged: good, Nontrivial: true})
+			if !good {
+				c.R.Find(Finding{Rule: rule, Func: fi.Name, Construct: construct, Pos: c.P.Position(sel.Pos()),
+					Msg: fmt.Sprintf("%s uses %s.%s.%s, which is not among the reviewed uses of that type: %s", fi.Name, pkgSuffix, typ, fn.Name(), why)})
+			}
+			return true
+		})
+	}
+	if n == 0 {
+		c.R.Fail("vacuity", "-", rule, "no use of "+pkgSuffix+"."+typ+" found: re-point the rule")
+	}
+}
+
+func allIn(xs, set []string) bool {
+	if len(xs) == 0 {
+		return false
+	}
+	for _, x := range xs {
+		if !contains(set, x) {
+			return false
+		}
+	}
+	return true
+}
